@@ -251,8 +251,8 @@ theorem put_eq_spec (a : Arc κ ν) (k : κ) (v : ν) (h : a.Inv) :
           have e3 : view a3 = (if a.frequentEvict.items.length > (view a2).p
               then { view a2 with b2 := (view a2).b2.dropLast } else view a2) := v3
           have hfin : view ({ a3 with recent := { a3.recent with items := (k, v) :: a3.recent.items } } : Arc κ ν) =
-              ArcSpec.admit (view a1) a.size a.recentEvict.items.length a.frequentEvict.items.length k v := by
-            unfold ArcSpec.admit
+              ArcSpec.admitNew (view a1) a.size a.recentEvict.items.length a.frequentEvict.items.length k v := by
+            unfold ArcSpec.admitNew
             simp only
             rw [← e2, ← e3]
             rfl
